@@ -131,7 +131,7 @@ STATEFUL = {
     "nowtwice": ("{{ 'now' | date: '%s' }}-{{ 'now' | date: '%s' }}-{{ now | date: '%s' }}",
                  lambda now, d: f"{int(now)}-{int(now)}-{int(now)}"),
     # an arrow function whose body reads its parameter twice (state kept on the parsed node between
-    # the two reads shows when another render of the same template runs in between: F12, batches)
+    # the two reads shows when another render of the same template runs in between: F13, batches)
     "lamtwice": ("{{ products | where: x => x.meta.n == x.meta.n | map: i => i.meta.n | join: ',' }}"
                  "|{% assign hit = products | find: it => it.meta.n >= it.meta.n %}{{ hit.meta.n }}",
                  lambda now, d: ",".join(str(i) for i in range(len(d["products"]))) + "|" + ("0" if d["products"] else "")),
@@ -599,7 +599,7 @@ class World:
                     return canon_exc(exc), None
             d, ctl = self.data(step["data"], fault, "shared" if inst is self.shared else "d")
             if fault and fault["kind"] == "reent_k":
-                # F12 re-entrancy: at data access k the data source renders the SAME template on the
+                # F13 re-entrancy: at data access k the data source renders the SAME template on the
                 # same environment (nested, with its own plain data) and throws the result away
                 nd = wrap_data(self.raw_data(step["data"]), {"mode": "none"}, DropCtl("n"))
                 if step["data"].get("catalog"):
@@ -796,7 +796,7 @@ def do_step(w: World, step: dict) -> None:
         if ctl is not None and ctl.fired:
             w.count("F2_data_fault_fired")
         if ctl is not None and ctl.reentered:
-            w.count("F12_reentrant_render_fired")
+            w.count("F13_reentrant_render_fired")
         if got[0] == "err":
             w.count("err:" + got[1])
             if got[1] == "OSError:EIO":
@@ -948,7 +948,7 @@ def do_sweep(w: World, step: dict) -> None:
         if ctl2 is not None and ctl2.fired:
             w.count("F2_data_fault_fired")
         if ctl2 is not None and ctl2.reentered:
-            w.count("F12_reentrant_render_fired")
+            w.count("F13_reentrant_render_fired")
         if got[0] == "err" and got[1] == "OSError:EIO":
             w.count("F3_loader_fault_fired")
         if got[0] == "err":
